@@ -38,7 +38,7 @@ for pid in ids:
             r = subprocess.run([os.path.join(VERIF, "check"), pid, "--tier", "quick"], capture_output=True, text=True, errors="replace", cwd=VERIF, timeout=1500, env=env)
             viol = [l for l in r.stdout.splitlines() if l.startswith("VIOLATION")]
             keys = [l.strip() for l in r.stdout.splitlines() if l.startswith("  key=")]
-            res[tag] = dict(applied=True, exit=r.returncode, detected=(r.returncode == 1 and bool(viol)), n_violation_lines=len(viol), keys=keys[:6], wall_s=round(time.time() - t0, 1), tail=r.stdout.splitlines()[-1:] )
+            res[tag] = dict(applied=True, exit=r.returncode, detected=(r.returncode == 1 and bool(viol)), n_violation_lines=len(viol), keys=keys[:6], wall_s=round(time.time() - t0, 1), tail=r.stdout.splitlines()[-1:], stderr_tail=r.stderr.splitlines()[-6:] if (r.returncode not in (0, 1) or not viol and r.returncode) else [])
         except subprocess.TimeoutExpired:
             res[tag] = dict(applied=True, exit=None, detected=False, note="timeout")
         finally:
